@@ -45,7 +45,7 @@ AllSetups ==
    Setup("queue", "fwd", "quota", Blk(TRUE))}
   \cup {Setup("deque", d, "nolimit", b) : d \in {"fwd", "rev"}, b \in {Blk(TRUE), Blk(FALSE), Blk2(TRUE, FALSE)}}
   \* a fixed-capacity deque used as a ring buffer (Force pushes evict at the near end)
-  \cup {Setup("deque", d, "hard", b) : d \in {"fwd", "rev"}, b \in {Blk(FALSE), Blk2(TRUE, FALSE)}}
+  \cup {Setup("deque", "fwd", "hard", Blk(FALSE)), Setup("deque", "rev", "hard", Blk(TRUE))}
 QueueSetups == {s \in AllSetups : s.kind = "queue"}
 DequeSetups == {s \in AllSetups : s.kind = "deque"}
 
@@ -150,7 +150,7 @@ Add == /\ Len(c.added) < AddBound /\ UNCHANGED tcause
 
 \* Force push at the far end (Deque only): on a full deque it evicts the item at the near end first - a
 \* concurrent removal for every iterator that has been started
-ForceAdd == /\ setup.kind = "deque" /\ Len(c.added) < AddBound
+ForceAdd == /\ setup.trk = "hard" /\ Len(c.added) < AddBound    \* on an unlimited deque it is a plain push
             /\ tcause' = Merge(IF Evicts(c) THEN "evict" ELSE "")
             /\ \E o \in AForce(c, Val) :
                  Settle(o.c, IF Evicts(c) THEN [i \in Names |-> Taint(its[i])] ELSE its, pend, canc, badd,
